@@ -53,6 +53,9 @@ package markdown
 //@ -- alignOK(t): values stored under the alignment key of any column are alignment values (N5)
 //@ pred alignOK(t *tabular.ATable) = forall i int :: {t.columns[i]} 0 <= i && i < len(t.columns) ==> (lookup(heap[tabular.valueProperty.chain], heap[tabular.valueProperty.key], heap[tabular.valueProperty.val], t.columns[i].properties, mkiface(type[*align.propertyKey], box(align.PropertyType))) == nil || impl(dyn(lookup(heap[tabular.valueProperty.chain], heap[tabular.valueProperty.key], heap[tabular.valueProperty.val], t.columns[i].properties, mkiface(type[*align.propertyKey], box(align.PropertyType)))), align.Alignment))
 
+//@ -- delim(a, w): the delimiter-row cell of a column with effective alignment a and w dashes (C08)
+//@ spec delim(a Iface, w int) Str = (a != nil && isRight(a) && !isLeft(a)) ? cat(cat(" ", repeat("-", w)), ":") : ((a != nil && isCenter(a) && !isLeft(a) && !isRight(a)) ? cat(cat(":", repeat("-", w)), ":") : cat(cat(" ", repeat("-", w)), " "))
+
 //@ func CellPropertyExtractWidth
 //@   tags C08,C09
 //@   requires cell != nil && chainOK(heap[tabular.valueProperty.chain], heap[tabular.valueProperty.key], heap[tabular.valueProperty.val], cell.properties)
@@ -95,7 +98,13 @@ package markdown
 //@   loop#3 invariant -1 <= rangeindex && rangeindex < len(cells) && len(cells) <= columnCount && 0 <= n && n < len(mtab(mt).rows) && cells === mtab(mt).rows[n].cells && !mtab(mt).rows[n].isSeparator && tbl(mt.Table) && alignOK(mtab(mt)) && !Wfailed && Wn == old(Wn) && mdLineN == old(mdLineN) && mdLinePipes === old(mdLinePipes) && len(widths) == columnCount && columnCount == mtab(mt).nColumns && columnCount >= 1 && mtab(mt).headerRow != nil && headers === mtab(mt).headerRow.cells && len(headers) <= columnCount
 //@   loop#3 decreases len(cells) - rangeindex
 //@   loop#4 invariant 0 <= i && i <= columnCount && len(controlRowCells) == i && fresh(controlRowCells) && cap(controlRowCells) == columnCount && len(alignments) == columnCount && mdCellsFresh(controlRowCells) && tbl(mt.Table) && alignOK(mtab(mt)) && !Wfailed && Wn == old(Wn) && mdLineN == old(mdLineN) && mdLinePipes === old(mdLinePipes) && len(widths) == columnCount && columnCount == mtab(mt).nColumns && columnCount >= 1 && mtab(mt).headerRow != nil && headers === mtab(mt).headerRow.cells && len(headers) <= columnCount
+//@   loop#4 invariant defaultAlignRaw == alignOf(mtab(mt), 0)
+//@   loop#4 invariant [alignments-so-far] forall k int :: {alignments[k]} 0 <= k && k < i ==> alignments[k] == effAlign(mtab(mt), k)
+//@   loop#4 invariant forall k int :: {alignments[k]} i <= k && k < columnCount ==> alignments[k] == nil
+//@   loop#4 invariant [delimiter-cells-so-far] forall k int :: {&controlRowCells[k]} 0 <= k && k < i ==> controlRowCells[k].str == delim(effAlign(mtab(mt), k), max(widths[k], 3))
 //@   loop#4 decreases columnCount - i
+//@   call emitRow#2 before assert [delimiter-cell-three-dashes-and-colons-of-effective-alignment] forall k int :: {&controlRowCells[k]} 0 <= k && k < columnCount ==> controlRowCells[k].str == delim(effAlign(mtab(mt), k), max(widths[k], 3)) @C08
+//@   call emitRow#1 before assert [effective-alignment-own-else-column-0] forall k int :: {alignments[k]} 0 <= k && k < columnCount ==> alignments[k] == effAlign(mtab(mt), k) @C08
 //@   loop#5 invariant -1 <= rangeindex && rangeindex < len(mtab(mt).rows) && tbl(mt.Table) && !Wfailed && len(widths) == columnCount && len(alignments) == columnCount && columnCount == mtab(mt).nColumns && columnCount >= 1 && mtab(mt).headerRow != nil
 //@   loop#5 invariant mdLineN == old(mdLineN) + 2 + nonsep(heap[[]*tabular.Row], heap[tabular.Row.isSeparator], mtab(mt).rows, rangeindex + 1)
 //@   loop#5 invariant forall r int :: {mdLinePipes[r]} old(mdLineN) <= r && r < mdLineN ==> mdLinePipes[r] == mtab(mt).nColumns + 1
